@@ -153,6 +153,11 @@ class C13(runner.Check):
 		nT = r.randint(1, 8)
 		tstyle = r.choice(["dirichlet", "mixed", "grid", "near", "mixed"])
 		targets = [_gen_motif(r, r.randint(1, maxw), tstyle) for _ in range(nT)]
+		if nT >= 2 and r.chance(0.3):
+			# duplicated targets give exact p-value ties (n_nearest tie handling)
+			for _ in range(r.randint(1, max(1, nT // 2))):
+				a, b = r.sample(range(nT), 2)
+				targets[a] = copy.deepcopy(targets[b])
 		onehot_pool = leg == "sim" and r.chance(0.15)
 		nP = r.randint(2, 8)
 		lens = [r.randint(1, maxw) for _ in range(nP)]
